@@ -14,6 +14,14 @@ def canonIns (e : Nat × Nat) : List (Nat × Nat) → List (Nat × Nat)
 
 def canon (d : List (Nat × Nat)) : List (Nat × Nat) := d.foldl (fun acc e => canonIns e acc) []
 
+def parseRec (w : String) : Option Rec :=
+  match w.splitOn "." with
+  | [n, body] => do
+      let n ← n.toNat?
+      let b ← ofHex body
+      pure (n, b)
+  | _ => none
+
 def parseOp (w : String) : Option (PState → R PState) :=
   match w.splitOn ":" with
   | ["n"] => some (fun s => .ok (new s))
@@ -29,6 +37,15 @@ def parseOp (w : String) : Option (PState → R PState) :=
       let a ← if a == "-" then some none else a.toNat?.map some
       let b ← if b == "-" then some none else b.toNat?.map some
       pure (fun s => deleteOpt s a b)
+  | ["x", e] => do
+      -- an operation outside the model (RENUM) that was refused: state unchanged, error e
+      let e ← e.toNat?
+      pure (fun _ => .error e)
+  | ["l", recs] => do
+      -- re-synchronisation after an operation outside the model (an accepted RENUM): the state that
+      -- represents the given records `n.hexbody,n.hexbody,…` (`-` = no lines)
+      let rs ← if recs == "-" then some [] else (recs.splitOn ",").mapM parseRec
+      pure (fun s => .ok { s with code := ser (s.codeStart + 1) rs, dict := dictOf rs })
   | _ => none
 
 def showChain (c : List (Nat × Nat) × Option Nat) : List Nat :=
